@@ -188,3 +188,904 @@ Proof. unfold q_run, qs_run. apply q_refines_run. exact qrel0. Qed.
 
 Theorem q_oracle_accepts_model ops : q_oracle ops (q_run ops) = true.
 Proof. unfold q_oracle. rewrite q_refines_fifo. apply trace_eqb_refl. Qed.
+
+(* =====================================================================================
+   Part 2 — conservation, order and completion of pops, proved once on the FIFO specification and
+   transported to queue<T> (qrel) and queue<void> (vrel)
+   ===================================================================================== *)
+Definition nopend (l : list fstate) : Prop := Forall (fun f => f <> FPending) l.
+Definition itemlist (b : balance) : list Z := match b with BItems l => l | BWait _ => [] end.
+Definition waitlist (b : balance) : list nat := match b with BItems _ => [] | BWait w => w end.
+Definition is_destroy (x : qop) : bool := match x with QDestroy => true | _ => false end.
+Definition push_val (x : qop) : list Z := match x with QPush v => [v] | _ => [] end.
+Definition pushed_vals (l : list qop) : list Z := flat_map push_val l.
+Definition no_destroy (l : list qop) : Prop := Forall (fun x => is_destroy x = false) l.
+
+(* the i-th pop is the oldest one still waiting *)
+Definition oldest_pending (fs : list fstate) (i : nat) : Prop :=
+  fget fs i = FPending /\ forall j, (j < i)%nat -> fget fs j <> FPending.
+
+Lemma nopend_app a b : nopend a -> nopend b -> nopend (a ++ b).
+Proof. intros A B. apply Forall_app. split; assumption. Qed.
+Lemma nopend_one f : f <> FPending -> nopend [f].
+Proof. intros H. constructor; [exact H|constructor]. Qed.
+
+Lemma fget_app_right a b i : (length a <= i)%nat -> fget (a ++ b) i = fget b (i - length a).
+Proof. intros H. unfold fget. apply app_nth2. lia. Qed.
+Lemma fget_repeat x n j : (j < n)%nat -> fget (repeat x n) j = x.
+Proof. revert j; induction n as [|n IH]; intros [|j] H; cbn [repeat]; unfold fget in *; cbn [nth]; try lia; [reflexivity|]. apply IH. lia. Qed.
+Lemma fget_beyond l i : (length l <= i)%nat -> fget l i = FCanceled.
+Proof. intros H. unfold fget. apply nth_overflow. exact H. Qed.
+Lemma nopend_fget done i : nopend done -> (i < length done)%nat -> fget done i <> FPending.
+Proof.
+  intros N H. unfold nopend in N. rewrite Forall_forall in N. apply N. unfold fget. apply nth_In. exact H.
+Qed.
+
+(* in a store of the form done ++ Pending^n the pending futures are exactly the ids |done| .. |done|+n-1 *)
+Lemma pending_range done n i : nopend done -> fget (done ++ repeat FPending n) i = FPending ->
+  (length done <= i < length done + n)%nat.
+Proof.
+  intros N H. destruct (Nat.lt_ge_cases i (length done)) as [L|L].
+  - rewrite fget_app_left in H by exact L. exfalso. exact (nopend_fget done i N L H).
+  - split; [exact L|]. destruct (Nat.lt_ge_cases i (length done + n)) as [L2|L2]; [exact L2|].
+    rewrite fget_beyond in H; [discriminate|]. rewrite app_length, repeat_length. exact L2.
+Qed.
+Lemma oldest_is_first done n : nopend done -> (0 < n)%nat -> oldest_pending (done ++ repeat FPending n) (length done).
+Proof.
+  intros N H. split.
+  - rewrite fget_app_right by lia. rewrite Nat.sub_diag. apply fget_repeat. exact H.
+  - intros j L. rewrite fget_app_left by exact L. apply nopend_fget; assumption.
+Qed.
+Lemma oldest_unique fs i j : oldest_pending fs i -> oldest_pending fs j -> i = j.
+Proof.
+  intros [A1 A2] [B1 B2]. destruct (Nat.lt_trichotomy i j) as [L|[L|L]]; [|exact L|].
+  - exfalso. exact (B2 i L A1).
+  - exfalso. exact (A2 j L B1).
+Qed.
+
+Lemma delivered_nopend_tail done n : delivered (done ++ repeat FPending n) = delivered done.
+Proof. rewrite delivered_app, delivered_repeat_pending, app_nil_r. reflexivity. Qed.
+
+Record sinv (pv : list Z) (s : qspec) (done : list fstate) : Prop := mkSinv {
+  si_alive : s_alive s = true;
+  si_shape : shape (s_futs s) (waitlist (bal s)) done;
+  si_nopend : nopend done;
+  si_cons : pv = delivered (s_futs s) ++ itemlist (bal s)
+}.
+
+Lemma sinv0 : sinv [] qs0 [].
+Proof. split; cbn; try reflexivity; [exact shape_nil|constructor]. Qed.
+
+Lemma sinv_step pv s done x : sinv pv s done -> is_destroy x = false ->
+  exists done', sinv (pv ++ push_val x) (fst (qs_step s x)) done'.
+Proof.
+  intros [A Sh N C] ND. unfold qs_step. rewrite A. cbn [negb].
+  destruct s as [b sf sa]; cbn [bal s_futs s_alive] in *. subst sa.
+  destruct x as [v| |e| | |k v|k| ]; cbn [push_val is_destroy] in *; try discriminate;
+    try (exists done; rewrite app_nil_r; split; cbn [fst bal s_futs s_alive]; (assumption || reflexivity)).
+  - (* push *)
+    destruct b as [l|[|p w]]; cbn [waitlist itemlist fst bal s_futs s_alive] in *.
+    + exists done. split; cbn [bal s_futs s_alive waitlist itemlist]; try assumption; try reflexivity.
+      rewrite C. rewrite app_assoc. reflexivity.
+    + exists done. split; cbn [bal s_futs s_alive waitlist itemlist]; try assumption; try reflexivity.
+      rewrite C. rewrite app_nil_r. reflexivity.
+    + pose proof (shape_take sf p w done (FValue v) Sh) as (Hp & Hf & Hs & Hsh).
+      exists (done ++ [FValue v]). split; cbn [bal s_futs s_alive waitlist itemlist]; try assumption; try reflexivity.
+      * apply nopend_app; [exact N|apply nopend_one; discriminate].
+      * rewrite C, Hs. rewrite Hf. rewrite !delivered_app. cbn [delivered flat_map val_of app].
+        rewrite !delivered_repeat_pending. rewrite !app_nil_r. reflexivity.
+  - (* pop *)
+    rewrite app_nil_r.
+    destruct b as [[|y t]|w]; cbn [waitlist itemlist fst bal s_futs s_alive] in *.
+    + exists done. split; cbn [bal s_futs s_alive waitlist itemlist]; try assumption; try reflexivity.
+      * apply (shape_park sf [] done Sh).
+      * rewrite C. rewrite delivered_app. cbn. rewrite !app_nil_r. reflexivity.
+    + pose proof (shape_ready sf done (FValue y) Sh) as [Sh' E].
+      exists (sf ++ [FValue y]). split; cbn [bal s_futs s_alive waitlist itemlist]; try assumption; try reflexivity.
+      * apply nopend_app; [rewrite E; exact N|apply nopend_one; discriminate].
+      * rewrite C. rewrite delivered_app. cbn [delivered flat_map val_of app]. rewrite <- app_assoc. reflexivity.
+    + exists done. split; cbn [bal s_futs s_alive waitlist itemlist]; try assumption; try reflexivity.
+      * apply (shape_park sf w done Sh).
+      * rewrite C. rewrite delivered_app. cbn. rewrite !app_nil_r. reflexivity.
+  - (* unblock_pop *)
+    rewrite app_nil_r.
+    destruct b as [l|[|p w]]; cbn [waitlist itemlist fst bal s_futs s_alive] in *;
+      try (exists done; split; cbn [bal s_futs s_alive waitlist itemlist]; (assumption || reflexivity)).
+    pose proof (shape_take sf p w done (FExc e) Sh) as (Hp & Hf & Hs & Hsh).
+    exists (done ++ [FExc e]). split; cbn [bal s_futs s_alive waitlist itemlist]; try assumption; try reflexivity.
+    + apply nopend_app; [exact N|apply nopend_one; discriminate].
+    + rewrite C, Hs. rewrite Hf. rewrite !delivered_app. cbn [delivered flat_map val_of app].
+      rewrite !delivered_repeat_pending. rewrite !app_nil_r. reflexivity.
+Qed.
+
+Lemma sinv_run ops : forall pv s done, sinv pv s done -> no_destroy ops ->
+  exists done', sinv (pv ++ pushed_vals ops) (snd (qs_run_from s ops)) done'.
+Proof.
+  induction ops as [|x ops IH]; intros pv s done I ND; cbn [qs_run_from pushed_vals flat_map].
+  - exists done. rewrite app_nil_r. exact I.
+  - inversion ND as [|x' l' Hx Hl]; subst.
+    destruct (sinv_step pv s done x I Hx) as [d1 I1].
+    destruct (qs_step s x) as [s1 o] eqn:E. cbn [fst] in I1.
+    destruct (IH _ _ _ I1 Hl) as [d2 I2].
+    destruct (qs_run_from s1 ops) as [os s2]. cbn [snd] in *.
+    exists d2. rewrite app_assoc. exact I2.
+Qed.
+
+(* ---- transport to queue<T> ---- *)
+Definition q_final (ops : list qop) : queue := snd (q_run_from q0 ops).
+Definition qs_final (ops : list qop) : qspec := snd (qs_run_from qs0 ops).
+
+Lemma qrel_final ops : qrel (q_final ops) (qs_final ops).
+Proof. apply q_refines_run. exact qrel0. Qed.
+
+Lemma qrel_items q s : qrel q s -> items q = itemlist (bal s) /\ waiters q = waitlist (bal s).
+Proof. intros (_ & _ & B). destruct (bal s); cbn; destruct B; split; congruence. Qed.
+
+Theorem q_not_both_nonempty ops : items (q_final ops) = [] \/ waiters (q_final ops) = [].
+Proof.
+  pose proof (qrel_final ops) as (_ & _ & B). destruct (bal (qs_final ops)); destruct B; [right|left]; assumption.
+Qed.
+
+(* the state reached by a history without destruction *)
+Record q_good (pv : list Z) (q : queue) (done : list fstate) : Prop := mkQGood {
+  qg_alive : alive q = true;
+  qg_futs : futs q = done ++ repeat FPending (length (waiters q));
+  qg_waiters : waiters q = seq (length done) (length (waiters q));
+  qg_nopend : nopend done;
+  qg_excl : items q = [] \/ waiters q = [];
+  qg_cons : pv = delivered (futs q) ++ items q
+}.
+
+Lemma q_good_run ops : no_destroy ops -> exists done, q_good (pushed_vals ops) (q_final ops) done.
+Proof.
+  intros ND. destruct (sinv_run ops [] qs0 [] sinv0 ND) as [done [A Sh N C]].
+  pose proof (qrel_final ops) as R. pose proof (qrel_items _ _ R) as [EI EW]. destruct R as (F & AL & B).
+  fold (qs_final ops) in A, Sh, C. exists done. destruct Sh as [S1 S2]. rewrite <- EW in S1, S2. rewrite F in S1.
+  split; try assumption.
+  - congruence.
+  - apply q_not_both_nonempty.
+  - cbn [app] in C. rewrite C, F, EI. reflexivity.
+Qed.
+
+(* conservation + order: the values pushed, in push order, are exactly the values held by the pop futures read
+   in pop-arrival order, followed by the items still queued.  (List equality: no loss, no duplicate, no swap.) *)
+Theorem q_conservation_order ops : no_destroy ops ->
+  pushed_vals ops = delivered (futs (q_final ops)) ++ items (q_final ops).
+Proof. intros ND. destruct (q_good_run ops ND) as [done G]. exact (qg_cons _ _ _ G). Qed.
+
+(* pending pops are exactly the parked promises, in arrival order *)
+Theorem q_pending_are_waiters ops : no_destroy ops ->
+  forall i, fget (futs (q_final ops)) i = FPending <-> In i (waiters (q_final ops)).
+Proof.
+  intros ND i. destruct (q_good_run ops ND) as [done [A F W N X C]].
+  set (q := q_final ops) in *. rewrite W, F. rewrite in_seq. split.
+  - intros H. apply pending_range in H; [lia|exact N].
+  - intros H. rewrite fget_app_right by lia. apply fget_repeat. lia.
+Qed.
+
+(* a pending pop changes state only in three ways; in the first two it is the OLDEST pending pop *)
+Theorem q_pop_completes_only_by pv q done x i :
+  q_good pv q done -> fget (futs q) i = FPending -> fget (futs (fst (q_step q x))) i <> FPending ->
+  (exists v, x = QPush v /\ oldest_pending (futs q) i /\ fget (futs (fst (q_step q x))) i = FValue v) \/
+  (exists e, x = QUnblockPop e /\ oldest_pending (futs q) i /\ fget (futs (fst (q_step q x))) i = FExc e) \/
+  (x = QDestroy /\ fget (futs (fst (q_step q x))) i = FCanceled).
+Proof.
+  intros [A F W N X C] P. unfold q_step. rewrite A. cbn [negb].
+  pose proof P as R. rewrite F in R. apply pending_range in R; [|exact N].
+  destruct q as [it ws fs al]; cbn [items waiters futs alive] in *.
+  destruct x as [v| |e| | |k v|k| ]; cbn [fst futs]; try (intros H; exfalso; exact (H P)).
+  - (* push *)
+    unfold q_push, q_push_lock. cbn [waiters items futs alive]. destruct ws as [|p w]; cbn [fst futs q_resolve items waiters alive].
+    + intros H; exfalso; exact (H P).
+    + cbn [length seq] in W. injection W as Wp Ww. intros H. left. exists v. split; [reflexivity|].
+      destruct (Nat.eq_dec p i) as [E|E].
+      * subst i. split; [|apply fget_set_same; rewrite F, app_length, repeat_length; cbn [length]; lia].
+        rewrite Wp, F. apply oldest_is_first; [exact N|cbn [length]; lia].
+      * exfalso. apply H. rewrite fget_set_other by exact E. exact P.
+  - (* pop *)
+    unfold q_pop. cbn [items waiters futs alive]. destruct it as [|y t]; cbn [fst futs];
+      intros H; exfalso; apply H; rewrite fget_app_left; [exact P| |exact P|];
+      rewrite F, app_length, repeat_length; lia.
+  - (* unblock *)
+    unfold q_unblock_pop. cbn [waiters items futs alive]. destruct ws as [|p w]; cbn [fst futs].
+    + intros H; exfalso; exact (H P).
+    + cbn [length seq] in W. injection W as Wp Ww. intros H. right; left. exists e. split; [reflexivity|].
+      destruct (Nat.eq_dec p i) as [E|E].
+      * subst i. split; [|apply fget_set_same; rewrite F, app_length, repeat_length; cbn [length]; lia].
+        rewrite Wp, F. apply oldest_is_first; [exact N|cbn [length]; lia].
+      * exfalso. apply H. rewrite fget_set_other by exact E. exact P.
+  - (* destroy *)
+    intros _. right; right. split; [reflexivity|]. unfold q_destroy. cbn [futs waiters].
+    rewrite F. rewrite W at 2. rewrite cancel_all_seq. rewrite fget_app_right by lia. apply fget_repeat. lia.
+Qed.
+
+(* push with somebody waiting serves exactly the oldest pending pop with the pushed value and touches nothing else;
+   unblock_pop fails exactly the oldest pending pop with the given exception *)
+Theorem q_push_serves_oldest pv q done v i :
+  q_good pv q done -> oldest_pending (futs q) i ->
+  futs (fst (q_step q (QPush v))) = set_nth (futs q) i (FValue v) /\
+  waiters q = i :: waiters (fst (q_step q (QPush v))) /\ items (fst (q_step q (QPush v))) = [].
+Proof.
+  intros [A F W N X C] O. unfold q_step. rewrite A. cbn [negb].
+  destruct O as [P O]. pose proof P as R. rewrite F in R. apply pending_range in R; [|exact N].
+  destruct q as [it ws fs al]; cbn [items waiters futs alive] in *.
+  unfold q_push, q_push_lock. cbn [waiters items futs alive].
+  destruct ws as [|p w]; cbn [length] in R; [lia|].
+  cbn [length seq] in W. injection W as Wp Ww.
+  assert (i = p) as ->.
+  { apply (oldest_unique fs); [split; assumption|]. rewrite Wp, F. apply oldest_is_first; [exact N|cbn [length]; lia]. }
+  cbn [fst futs q_resolve items waiters alive]. destruct X as [X|X]; [|discriminate]. repeat split; assumption.
+Qed.
+
+Theorem q_unblock_pop_hits_oldest pv q done e i :
+  q_good pv q done -> oldest_pending (futs q) i ->
+  futs (fst (q_step q (QUnblockPop e))) = set_nth (futs q) i (FExc e) /\
+  waiters q = i :: waiters (fst (q_step q (QUnblockPop e))) /\ items (fst (q_step q (QUnblockPop e))) = items q.
+Proof.
+  intros [A F W N X C] O. unfold q_step. rewrite A. cbn [negb].
+  destruct O as [P O]. pose proof P as R. rewrite F in R. apply pending_range in R; [|exact N].
+  destruct q as [it ws fs al]; cbn [items waiters futs alive] in *.
+  unfold q_unblock_pop. cbn [waiters items futs alive].
+  destruct ws as [|p w]; cbn [length] in R; [lia|].
+  cbn [length seq] in W. injection W as Wp Ww.
+  assert (i = p) as ->.
+  { apply (oldest_unique fs); [split; assumption|]. rewrite Wp, F. apply oldest_is_first; [exact N|cbn [length]; lia]. }
+  cbn [fst futs items waiters alive]. repeat split.
+Qed.
+
+(* destruction: every pending pop becomes canceled, every completed pop keeps its result; afterwards every op is rejected *)
+Theorem q_destroy_cancels pv q done i :
+  q_good pv q done ->
+  fget (futs (q_destroy q)) i = (if fstate_eqb (fget (futs q) i) FPending then FCanceled else fget (futs q) i).
+Proof.
+  intros [A F W N X C]. unfold q_destroy. cbn [futs]. rewrite F at 1. rewrite W at 2. rewrite cancel_all_seq.
+  rewrite F. destruct (Nat.lt_ge_cases i (length done)) as [L|L].
+  - rewrite !fget_app_left by exact L. pose proof (nopend_fget done i N L) as H.
+    destruct (fget done i); cbn [fstate_eqb]; try reflexivity. congruence.
+  - rewrite !fget_app_right by exact L. destruct (Nat.lt_ge_cases (i - length done) (length (waiters q))) as [L2|L2].
+    + rewrite !fget_repeat by exact L2. reflexivity.
+    + rewrite !fget_beyond by (rewrite repeat_length; exact L2). reflexivity.
+Qed.
+
+Theorem q_dead_rejects q x : alive q = false -> q_step q x = (q, rejected).
+Proof. intros H. unfold q_step. rewrite H. reflexivity. Qed.
+
+(* =====================================================================================
+   Part 3 — queue<void>: the counter refines the FIFO of unit items; a counting semaphore
+   ===================================================================================== *)
+Definition vrel (q : vqueue) (s : qspec) : Prop :=
+  s_futs s = vfuts q /\ s_alive s = valive q /\ 0 <= vcnt q /\
+  match bal s with
+  | BItems l => l = repeat 0 (Z.to_nat (vcnt q)) /\ vwaiters q = []
+  | BWait w => vwaiters q = w /\ vcnt q = 0
+  end.
+
+Lemma zlen_repeat {A} (x : A) n : zlen (repeat x n) = Z.of_nat n.
+Proof. unfold zlen. rewrite repeat_length. reflexivity. Qed.
+
+(* queue<void>::push carries no value: the wire decoder produces QPush 0 only *)
+Definition voidop (x : qop) : Prop := match x with QPush v => v = 0 | _ => True end.
+Lemma voidop_decode l : voidop (vq_decode l).
+Proof.
+  unfold vq_decode. repeat (match goal with |- voidop (match ?x with _ => _ end) => destruct x end; try exact I); reflexivity.
+Qed.
+
+Lemma ok_obs_eq r a b d : a = b -> ok_obs r a d = ok_obs r b d.
+Proof. intros ->. reflexivity. Qed.
+Ltac obs_eq := apply ok_obs_eq; rewrite ?zlen_app, ?zlen_repeat, ?zlen_cons, ?zlen_nil; lia.
+
+Lemma vq_refines_step q s x : vrel q s -> voidop x ->
+  vrel (fst (vq_step q x)) (fst (qs_step s x)) /\ snd (vq_step q x) = snd (qs_step s x).
+Proof.
+  intros (F & A & NN & B) VO. unfold vq_step, qs_step. rewrite A.
+  destruct q as [c ws fs al]; destruct s as [b sf sa]; cbn [vcnt vwaiters vfuts valive bal s_futs s_alive] in *.
+  subst sf sa.
+  destruct al; cbn [negb]; [|split; [repeat split; assumption|reflexivity]].
+  destruct x as [v| |e| | |k v|k| ];
+    try (split; [repeat split; assumption|reflexivity]);
+    destruct b as [l|w]; destruct B as [B1 B2]; cbn [voidop] in VO; subst;
+    unfold vq_obs, qs_obs, vrel; cbn [vcnt vwaiters vfuts valive bal s_futs s_alive fst snd bal_size].
+  - (* push, items *)
+    split; [repeat split; try lia|].
+    + replace (Z.to_nat (c + 1)) with (S (Z.to_nat c)) by lia. rewrite <- repeat_snoc. reflexivity.
+    + obs_eq.
+  - (* push, waiters *)
+    destruct w as [|p w]; cbn [fst snd vcnt vwaiters vfuts valive bal s_futs s_alive bal_size].
+    + split; [repeat split; lia|reflexivity].
+    + split; [repeat split; lia|reflexivity].
+  - (* pop, items *)
+    destruct (c =? 0) eqn:E.
+    + assert (c = 0) as -> by lia. cbn [Z.to_nat repeat]. cbn [fst snd vcnt vwaiters vfuts valive bal s_futs s_alive bal_size app].
+      split; [repeat split; lia|reflexivity].
+    + assert (Z.to_nat c = S (Z.to_nat (c - 1))) as EQ by lia. rewrite EQ. cbn [repeat].
+      cbn [fst snd vcnt vwaiters vfuts valive bal s_futs s_alive bal_size].
+      replace (Z.max 1 c - 1) with (c - 1) by lia.
+      split; [repeat split; lia|]. obs_eq.
+  - (* pop, waiters *)
+    rewrite Z.eqb_refl. cbn [fst snd vcnt vwaiters vfuts valive bal s_futs s_alive bal_size].
+    split; [repeat split; lia|reflexivity].
+  - (* unblock, items *) cbn [fst snd]. split; [repeat split; try lia|]. obs_eq.
+  - (* unblock, waiters *)
+    destruct w as [|p w]; cbn [fst snd vcnt vwaiters vfuts valive bal s_futs s_alive bal_size];
+      (split; [repeat split; lia|reflexivity]).
+  - (* size *) split; [repeat split; try lia|]. obs_eq.
+  - split; [repeat split; lia|reflexivity].
+  - (* destroy *) split; [repeat split; lia|]. cbn [cancel_all]. reflexivity.
+  - split; [repeat split; lia|reflexivity].
+Qed.
+
+Lemma vq_refines_run ops : forall q s, vrel q s -> Forall voidop ops ->
+  fst (vq_run_from q ops) = fst (qs_run_from s ops) /\ vrel (snd (vq_run_from q ops)) (snd (qs_run_from s ops)).
+Proof.
+  induction ops as [|x ops IH]; intros q s R VO; cbn [vq_run_from qs_run_from]; [split; [reflexivity|exact R]|].
+  inversion VO as [|x' l' Vx Vl]; subst.
+  pose proof (vq_refines_step q s x R Vx) as [R1 O].
+  destruct (vq_step q x) as [q1 o]. destruct (qs_step s x) as [s1 o']. cbn [fst snd] in *. subst o'.
+  specialize (IH q1 s1 R1 Vl). destruct (vq_run_from q1 ops) as [os q2]. destruct (qs_run_from s1 ops) as [os' s2].
+  cbn [fst snd] in *. destruct IH as [E R2]. subst os'. split; [reflexivity|exact R2].
+Qed.
+
+Lemma vrel0 : vrel vq0 qs0.
+Proof. repeat split; cbn; lia. Qed.
+
+Definition vq_final (ops : list qop) : vqueue := snd (vq_run_from vq0 ops).
+
+Theorem vq_refines_fifo ops : vq_run ops = fst (qs_run_from qs0 (map vq_decode ops)).
+Proof.
+  unfold vq_run. apply vq_refines_run; [exact vrel0|]. apply Forall_forall. intros x H.
+  apply in_map_iff in H as (l & <- & _). apply voidop_decode.
+Qed.
+
+Theorem vq_oracle_accepts_model ops : vq_oracle ops (vq_run ops) = true.
+Proof. unfold vq_oracle. rewrite vq_refines_fifo. apply trace_eqb_refl. Qed.
+
+(* counting semaphore: the counter is the number of pushes minus the number of pops that completed with a value,
+   it is never negative, and pops wait only at zero *)
+Definition completed (fs : list fstate) : Z := zlen (delivered fs).
+Definition is_push (x : qop) : bool := match x with QPush _ => true | _ => false end.
+Definition pushes (l : list qop) : Z := zlen (filter is_push l).
+
+Lemma pushed_vals_length l : zlen (pushed_vals l) = pushes l.
+Proof.
+  unfold pushes, pushed_vals. induction l as [|x l IH]; [reflexivity|].
+  cbn [flat_map filter]. destruct x; cbn [push_val is_push app]; try exact IH. rewrite !zlen_cons. lia.
+Qed.
+
+Theorem vq_semaphore ops : no_destroy ops -> Forall voidop ops ->
+  vcnt (vq_final ops) = pushes ops - completed (vfuts (vq_final ops)) /\ 0 <= vcnt (vq_final ops) /\
+  (vwaiters (vq_final ops) <> [] -> vcnt (vq_final ops) = 0).
+Proof.
+  intros ND. destruct (sinv_run ops [] qs0 [] sinv0 ND) as [done [A Sh N C]].
+  intros VO. pose proof (vq_refines_run ops vq0 qs0 vrel0 VO) as [_ (F & AL & NN & B)].
+  fold (vq_final ops) in *. cbn [app] in C. unfold completed.
+  pose proof (pushed_vals_length ops) as PL. rewrite C in PL. rewrite zlen_app in PL. rewrite F in PL.
+  destruct (bal (snd (qs_run_from qs0 ops))) as [l|w]; cbn [itemlist] in PL; destruct B as [B1 B2].
+  - subst l. rewrite zlen_repeat in PL. split; [lia|]. split; [lia|]. intros H; contradiction.
+  - rewrite zlen_nil in PL. split; [lia|]. split; [lia|]. intros _; exact B2.
+Qed.
+
+(* =====================================================================================
+   Part 4 — limited_queue<T>: refinement to the bounded FIFO, conservation/order, blocked pushes
+   ===================================================================================== *)
+Definition adm (v : Z) : Z * option nat := (v, None).
+Definition blk (e : Z * nat) : Z * option nat := (fst e, Some (snd e)).
+
+Definition lrel (q : lqueue) (s : lspec) : Prop :=
+  ls_futs s = l_futs q /\ ls_pfuts s = l_pfuts q /\ ls_alive s = l_alive q /\ ls_limit s = l_limit q /\
+  ls_pend s = l_waiters q /\ ls_fifo s = map adm (l_items q) ++ map blk (l_blocked q).
+
+(* size facts of a live limited_queue with limit >= 1 *)
+Record lsz (q : lqueue) : Prop := mkLsz {
+  lz_limit : 1 <= l_limit q;
+  lz_size : zlen (l_items q) <= l_limit q;
+  lz_full : l_blocked q <> [] -> zlen (l_items q) = l_limit q;
+  lz_wait : l_waiters q <> [] -> l_items q = []
+}.
+
+Lemma filter_admitted its bs : filter admitted (map adm its ++ map blk bs) = map adm its.
+Proof.
+  induction its as [|x t IH]; cbn [map app filter].
+  - induction bs as [|[y f] b IHb]; cbn [map filter]; [reflexivity|exact IHb].
+  - cbn [admitted adm snd]. rewrite IH. reflexivity.
+Qed.
+Lemma ls_size_rel q s : lrel q s -> ls_size s = zlen (l_items q).
+Proof. intros (_ & _ & _ & _ & _ & F). unfold ls_size. rewrite F, filter_admitted. unfold zlen. rewrite map_length. reflexivity. Qed.
+Lemma lrel_obs q s q' s' r : lrel q s -> lrel q' s' -> lq_obs q q' r = ls_obs s s' r.
+Proof.
+  intros R R'. unfold lq_obs, ls_obs. rewrite (ls_size_rel _ _ R').
+  destruct R as (F & P & _). destruct R' as (F' & P' & _). rewrite F, P, F', P'. reflexivity.
+Qed.
+Lemma admit_first_blocked t y bp b :
+  admit_first (map adm t ++ map blk ((y, bp) :: b)) = (map adm (t ++ [y]) ++ map blk b, Some bp).
+Proof.
+  induction t as [|x t IH]; cbn [map app admit_first blk adm fst snd]; [reflexivity|].
+  cbn [map app blk fst snd] in IH. rewrite IH. reflexivity.
+Qed.
+Lemma admit_first_none t : admit_first (map adm t) = (map adm t, None).
+Proof. induction t as [|x t IH]; cbn [map]; [reflexivity|]. unfold adm at 1. cbn [admit_first]. rewrite IH. reflexivity. Qed.
+Lemma drop_first_blocked t y bp b :
+  drop_first (map adm t ++ map blk ((y, bp) :: b)) = (map adm t ++ map blk b, Some bp).
+Proof.
+  induction t as [|x t IH]; cbn [map app drop_first blk adm fst snd]; [reflexivity|].
+  cbn [map app blk fst snd] in IH. rewrite IH. reflexivity.
+Qed.
+Lemma drop_first_none t : drop_first (map adm t) = (map adm t, None).
+Proof. induction t as [|x t IH]; cbn [map]; [reflexivity|]. unfold adm at 1. cbn [drop_first]. rewrite IH. reflexivity. Qed.
+Lemma pending_pushes_rel its bs : pending_pushes (map adm its ++ map blk bs) = map snd bs.
+Proof.
+  induction its as [|x t IH]; cbn [map app pending_pushes adm].
+  - induction bs as [|[y f] b IHb]; cbn [map pending_pushes blk fst snd]; [reflexivity|]. rewrite IHb. reflexivity.
+  - exact IH.
+Qed.
+
+Ltac lsz_fin :=
+  cbn [l_items l_waiters l_blocked l_limit]; rewrite ?zlen_app, ?zlen_cons, ?zlen_nil in *;
+  first [ assumption | lia | reflexivity
+        | let H' := fresh "H'" in intros H'; first [ contradiction | discriminate | reflexivity | lia | tauto ] ].
+
+Lemma lsz_step q x : lsz q -> l_alive q = true -> l_alive (fst (lq_step_on q x)) = true -> lsz (fst (lq_step_on q x)).
+Proof.
+  intros [L S F W] A. unfold lq_step_on. rewrite A. cbn [negb].
+  destruct q as [it ws bl lim fs pf al]; cbn [l_items l_waiters l_blocked l_limit l_futs l_pfuts l_alive] in *.
+  destruct x as [l|v| |e| | |e| ]; cbn [fst]; intros A'; try (split; assumption).
+  - (* push *)
+    unfold lq_push; cbn [l_items l_waiters l_blocked l_limit l_futs l_pfuts l_alive].
+    destruct ws as [|p w]; cbn [fst].
+    + destruct (zlen it >=? lim) eqn:E; cbn [fst].
+      * split; lsz_fin.
+      * assert (bl = []) as -> by (destruct bl; [reflexivity|]; exfalso; assert (zlen it = lim) by (apply F; discriminate); lia).
+        split; lsz_fin.
+    + assert (it = []) as -> by (apply W; discriminate).
+      split; lsz_fin.
+  - (* pop *)
+    unfold lq_pop; cbn [l_items l_waiters l_blocked l_limit l_futs l_pfuts l_alive].
+    destruct it as [|y t]; cbn [fst].
+    + split; lsz_fin.
+    + assert (ws = []) as -> by (destruct ws; [reflexivity|]; exfalso; assert (y :: t = []) by (apply W; discriminate); discriminate).
+      destruct bl as [|[z bp] b]; cbn [fst].
+      * split; lsz_fin.
+      * assert (zlen (y :: t) = lim) as E by (apply F; discriminate).
+        split; lsz_fin.
+  - (* unblock_pop *)
+    unfold lq_unblock_pop; cbn [l_items l_waiters l_blocked l_limit l_futs l_pfuts l_alive].
+    destruct ws as [|p w]; cbn [fst]; [split; assumption|].
+    assert (it = []) as -> by (apply W; discriminate). split; lsz_fin.
+  - (* destroy *) cbn [lq_destroy l_alive] in A'. discriminate.
+  - (* unblock_push *)
+    unfold lq_unblock_push; cbn [l_items l_waiters l_blocked l_limit l_futs l_pfuts l_alive].
+    destruct bl as [|[z bp] b]; cbn [fst]; [split; assumption|].
+    assert (zlen it = lim) as E by (apply F; discriminate). split; lsz_fin.
+Qed.
+
+Lemma zlen_map {A B} (f : A -> B) l : zlen (map f l) = zlen l.
+Proof. unfold zlen. rewrite map_length. reflexivity. Qed.
+
+Lemma lq_refines_step q s x : lrel q s -> (l_alive q = true -> lsz q) ->
+  lrel (fst (lq_step_on q x)) (fst (ls_step_on s x)) /\ snd (lq_step_on q x) = snd (ls_step_on s x).
+Proof.
+  intros R Z. pose proof R as (F & P & A & L & W & Q).
+  assert (forall q' s' r, lrel q' s' -> lrel (fst (q', lq_obs q q' r)) (fst (s', ls_obs s s' r)) /\
+                          snd (q', lq_obs q q' r) = snd (s', ls_obs s s' r)) as K.
+  { intros q' s' r R'. cbn [fst snd]. split; [exact R'|apply lrel_obs; assumption]. }
+  unfold lq_step_on, ls_step_on. rewrite A.
+  destruct (l_alive q) eqn:AL; cbn [negb]; [|split; [exact R|reflexivity]].
+  specialize (Z eq_refl). destruct Z as [ZL ZS ZF ZW].
+  destruct q as [it ws bl lim fs pf al]; destruct s as [ff pd sl sf spf sa];
+    cbn [l_items l_waiters l_blocked l_limit l_futs l_pfuts l_alive ls_fifo ls_pend ls_limit ls_futs ls_pfuts ls_alive] in *.
+  subst sf spf sa sl pd ff al.
+  destruct x as [l|v| |e| | |e| ]; try (split; [exact R|reflexivity]).
+  - (* push *)
+    unfold lq_push; cbn [l_items l_waiters l_blocked l_limit l_futs l_pfuts l_alive].
+    destruct ws as [|p w].
+    + rewrite zlen_app, !zlen_map.
+      destruct (zlen it >=? lim) eqn:E.
+      * assert (zlen it + zlen bl <? lim = false) as -> by (pose proof (zlen_nonneg bl); lia).
+        apply K. repeat split; cbn [l_items l_waiters l_blocked l_limit l_futs l_pfuts l_alive ls_fifo ls_pend ls_limit ls_futs ls_pfuts ls_alive].
+        rewrite (map_app blk). cbn [map blk fst snd]. rewrite <- app_assoc. reflexivity.
+      * assert (bl = []) as -> by (destruct bl; [reflexivity|]; exfalso; assert (zlen it = lim) by (apply ZF; discriminate); lia).
+        assert (zlen (@nil (Z * nat)) = 0) as EZ by reflexivity. rewrite EZ. assert (zlen it + 0 <? lim = true) as -> by lia.
+        apply K. repeat split; cbn [l_items l_waiters l_blocked l_limit l_futs l_pfuts l_alive ls_fifo ls_pend ls_limit ls_futs ls_pfuts ls_alive].
+        cbn [map]. rewrite !app_nil_r. rewrite (map_app adm). reflexivity.
+    + apply K. repeat split.
+  - (* pop *)
+    unfold lq_pop; cbn [l_items l_waiters l_blocked l_limit l_futs l_pfuts l_alive].
+    destruct it as [|y t].
+    + assert (bl = []) as -> by (destruct bl; [reflexivity|]; exfalso; assert (zlen (@nil Z) = lim) by (apply ZF; discriminate); rewrite zlen_nil in *; lia).
+      cbn [map app]. apply K. repeat split.
+    + cbn [map app adm]. destruct bl as [|[z bp] b].
+      * cbn [map]. rewrite app_nil_r. fold adm. rewrite admit_first_none.
+        apply K. repeat split; cbn [l_items l_blocked ls_fifo map]. rewrite app_nil_r. reflexivity.
+      * fold adm. rewrite admit_first_blocked. apply K. repeat split.
+  - (* unblock_pop *)
+    unfold lq_unblock_pop; cbn [l_items l_waiters l_blocked l_limit l_futs l_pfuts l_alive].
+    destruct ws as [|p w]; apply K; [exact R|repeat split].
+  - (* size *) apply K. exact R.
+  - (* destroy *)
+    apply K. unfold lq_destroy. repeat split; cbn [l_items l_waiters l_blocked l_limit l_futs l_pfuts l_alive ls_fifo ls_pend ls_limit ls_futs ls_pfuts ls_alive].
+    rewrite pending_pushes_rel. reflexivity.
+  - (* unblock_push *)
+    unfold lq_unblock_push; cbn [l_items l_waiters l_blocked l_limit l_futs l_pfuts l_alive].
+    destruct bl as [|[z bp] b].
+    + cbn [map]. rewrite app_nil_r. rewrite drop_first_none. apply K. repeat split. cbn [ls_fifo l_items l_blocked map]. rewrite app_nil_r. reflexivity.
+    + rewrite drop_first_blocked. apply K. repeat split.
+Qed.
+
+Lemma lq_alive_mono q x : l_alive q = false -> l_alive (fst (lq_step_on q x)) = false.
+Proof. intros H. unfold lq_step_on. rewrite H. cbn. exact H. Qed.
+
+Lemma lq_refines_run_on ops : forall q s, lrel q s -> (l_alive q = true -> lsz q) ->
+  fst (lq_run_from (Some q) ops) = fst (ls_run_from (Some s) ops).
+Proof.
+  induction ops as [|x ops IH]; intros q s R Z; cbn [lq_run_from ls_run_from lq_step ls_step]; [reflexivity|].
+  pose proof (lq_refines_step q s x R Z) as [R1 O].
+  assert (l_alive (fst (lq_step_on q x)) = true -> lsz (fst (lq_step_on q x))) as Z1.
+  { intros A1. destruct (l_alive q) eqn:A0.
+    - apply lsz_step; auto.
+    - rewrite (lq_alive_mono q x A0) in A1. discriminate. }
+  destruct (lq_step_on q x) as [q1 o]. destruct (ls_step_on s x) as [s1 o']. cbn [fst snd] in *. subst o'.
+  specialize (IH q1 s1 R1 Z1). destruct (lq_run_from (Some q1) ops) as [os q2]. destruct (ls_run_from (Some s1) ops) as [os' s2].
+  cbn [fst] in *. subst os'. reflexivity.
+Qed.
+
+Lemma lsz_new limit : 1 <= limit -> lsz (lq_new limit).
+Proof. intros H. split; cbn; try lia; intros; congruence. Qed.
+Lemma lrel_new limit : lrel (lq_new limit) (ls_new limit).
+Proof. repeat split. Qed.
+
+(* every create op of the history asks for a limit >= 1 *)
+Definition limits_ok (l : list lop) : Prop := Forall (fun x => match x with LCreate n => 1 <= n | _ => True end) l.
+
+Lemma lq_refines_run_none ops : limits_ok ops -> fst (lq_run_from None ops) = fst (ls_run_from None ops).
+Proof.
+  induction ops as [|x ops IH]; intros LO; cbn [lq_run_from ls_run_from lq_step ls_step]; [reflexivity|].
+  inversion LO as [|x' l' Hx Hl]; subst.
+  destruct x as [n|v| |e| | |e| ];
+    try (specialize (IH Hl); destruct (lq_run_from None ops); destruct (ls_run_from None ops); cbn [fst] in *; congruence).
+  assert (0 <=? n = true) as -> by lia.
+  pose proof (lq_refines_run_on ops (lq_new n) (ls_new n) (lrel_new n) (fun _ => lsz_new n Hx)) as E.
+  destruct (lq_run_from (Some (lq_new n)) ops); destruct (ls_run_from (Some (ls_new n)) ops); cbn [fst] in *. subst. reflexivity.
+Qed.
+
+(* for every history and every limit >= 1 the model's observations are those of the bounded FIFO specification *)
+Theorem lq_refines_bounded_fifo ops : limits_ok (map lq_decode ops) -> lq_run ops = ls_run ops.
+Proof. intros H. unfold lq_run, ls_run. apply lq_refines_run_none. exact H. Qed.
+
+Theorem lq_oracle_accepts_model ops : limits_ok (map lq_decode ops) -> lq_oracle ops (lq_run ops) = true.
+Proof. intros H. unfold lq_oracle. rewrite lq_refines_bounded_fifo by exact H. apply trace_eqb_refl. Qed.
+
+(* ---- conservation / order / blocked pushes on the limited_queue model ---- *)
+Definition l_is_destroy (x : lop) : bool := match x with LDestroy => true | LCreate _ => true | _ => false end.
+Definition l_push_val (x : lop) : list Z := match x with LPush v => [v] | _ => [] end.
+Definition l_pushed_vals (l : list lop) : list Z := flat_map l_push_val l.
+Definition l_no_destroy (l : list lop) : Prop := Forall (fun x => l_is_destroy x = false) l.
+
+(* the items of the pushes that were not withdrawn: the i-th push is dropped iff its push future failed (unblock_push) *)
+Fixpoint kept (pv : list Z) (fs : list fstate) : list Z :=
+  match pv, fs with
+  | v :: p, f :: t => (match f with FExc _ => [] | _ => [v] end) ++ kept p t
+  | _, _ => []
+  end.
+
+Lemma kept_app a : forall fa b fb, length a = length fa -> kept (a ++ b) (fa ++ fb) = kept a fa ++ kept b fb.
+Proof.
+  induction a as [|v a IH]; intros [|f fa] b fb H; cbn [length] in H; try discriminate; cbn [app kept]; [reflexivity|].
+  rewrite IH by lia. rewrite app_assoc. reflexivity.
+Qed.
+Lemma kept_pending l : kept l (repeat FPending (length l)) = l.
+Proof. induction l as [|v l IH]; cbn [length repeat kept app]; [reflexivity|]. rewrite IH. reflexivity. Qed.
+Lemma kept_nil_r l : kept l [] = [].
+Proof. destruct l; reflexivity. Qed.
+
+Record lgood (pv : list Z) (q : lqueue) (done pdone : list fstate) (pva : list Z) : Prop := mkLGood {
+  lg_alive : l_alive q = true;
+  lg_sz : lsz q;
+  lg_shape : shape (l_futs q) (l_waiters q) done;
+  lg_nopend : nopend done;
+  lg_pshape : shape (l_pfuts q) (map snd (l_blocked q)) pdone;
+  lg_pnopend : nopend pdone;
+  lg_pv : pv = pva ++ map fst (l_blocked q);
+  lg_len : length pva = length pdone;
+  lg_kept : kept pva pdone = delivered (l_futs q) ++ l_items q
+}.
+
+Lemma lgood_new limit : 1 <= limit -> lgood [] (lq_new limit) [] [] [].
+Proof. intros H. split; cbn; try reflexivity; try (apply lsz_new; exact H); try exact shape_nil; constructor. Qed.
+
+Lemma shape_nil_done fs done : shape fs [] done -> fs = done.
+Proof. intros [F _]. cbn in F. rewrite app_nil_r in F. exact F. Qed.
+
+Lemma lgood_step pv q done pdone pva x : lgood pv q done pdone pva -> l_is_destroy x = false ->
+  exists done' pdone' pva', lgood (pv ++ l_push_val x) (fst (lq_step_on q x)) done' pdone' pva'.
+Proof.
+  intros G ND. pose proof G as [A Z Sh N PSh PN PV LE KE].
+  assert (lsz (fst (lq_step_on q x))) as Z'.
+  { apply lsz_step; [exact Z|exact A|]. unfold lq_step_on. rewrite A. cbn [negb].
+    destruct x; cbn [l_is_destroy] in ND; try discriminate; cbn [fst]; try exact A.
+    - unfold lq_push. destruct (l_waiters q); [destruct (zlen (l_items q) >=? l_limit q)|]; cbn [fst l_alive]; exact A.
+    - unfold lq_pop. destruct (l_items q); [|destruct (l_blocked q) as [|[? ?] ?]]; cbn [fst l_alive]; exact A.
+    - unfold lq_unblock_pop. destruct (l_waiters q); cbn [fst l_alive]; exact A.
+    - unfold lq_unblock_push. destruct (l_blocked q) as [|[? ?] ?]; cbn [fst l_alive]; exact A. }
+  revert Z'. unfold lq_step_on. rewrite A. cbn [negb].
+  destruct Z as [ZL ZS ZF ZW].
+  destruct q as [it ws bl lim fs pf al]; cbn [l_items l_waiters l_blocked l_limit l_futs l_pfuts l_alive] in *. subst al.
+  destruct x as [l|v| |e| | |e| ]; cbn [l_is_destroy l_push_val] in *; try discriminate; cbn [fst]; intros Z';
+    try (exists done, pdone, pva; rewrite app_nil_r; exact G).
+  - (* push *)
+    revert Z'. unfold lq_push; cbn [l_items l_waiters l_blocked l_limit l_futs l_pfuts l_alive].
+    destruct ws as [|p w]; cbn [fst].
+    + destruct (zlen it >=? lim) eqn:E; cbn [fst]; intros Z'.
+      * (* blocks *)
+        exists done, pdone, pva. split; cbn [l_items l_waiters l_blocked l_limit l_futs l_pfuts l_alive]; try assumption; try reflexivity.
+        -- rewrite map_app. cbn [map snd]. apply shape_park. exact PSh.
+        -- rewrite PV. rewrite (map_app fst). cbn [map fst]. rewrite app_assoc. reflexivity.
+      * (* enqueues: nobody is blocked *)
+        assert (bl = []) as -> by (destruct bl; [reflexivity|]; exfalso; assert (zlen it = lim) by (apply ZF; discriminate); lia).
+        cbn [map] in *. pose proof (shape_nil_done _ _ PSh) as EP. subst pf.
+        exists done, (pdone ++ [FValue 0]), (pva ++ [v]).
+        split; cbn [l_items l_waiters l_blocked l_limit l_futs l_pfuts l_alive map]; try assumption; try reflexivity.
+        -- apply (proj1 (shape_ready _ _ (FValue 0) PSh)).
+        -- apply nopend_app; [exact PN|apply nopend_one; discriminate].
+        -- rewrite PV. rewrite !app_nil_r. reflexivity.
+        -- rewrite !app_length. cbn [length]. lia.
+        -- rewrite kept_app by exact LE. rewrite KE. cbn [kept app]. rewrite <- app_assoc. reflexivity.
+    + (* hand-over to the oldest waiting pop *)
+      intros Z'. assert (it = []) as -> by (apply ZW; discriminate).
+      assert (bl = []) as -> by (destruct bl; [reflexivity|]; exfalso; assert (zlen (@nil Z) = lim) by (apply ZF; discriminate); rewrite zlen_nil in *; lia).
+      cbn [map] in *. pose proof (shape_nil_done _ _ PSh) as EP. subst pf.
+      pose proof (shape_take fs p w done (FValue v) Sh) as (Hp & Hf & Hs & Hsh).
+      exists (done ++ [FValue v]), (pdone ++ [FValue 0]), (pva ++ [v]).
+      split; cbn [l_items l_waiters l_blocked l_limit l_futs l_pfuts l_alive map]; try assumption; try reflexivity.
+      * apply nopend_app; [exact N|apply nopend_one; discriminate].
+      * apply (proj1 (shape_ready _ _ (FValue 0) PSh)).
+      * apply nopend_app; [exact PN|apply nopend_one; discriminate].
+      * rewrite PV. rewrite !app_nil_r. reflexivity.
+      * rewrite !app_length. cbn [length]. lia.
+      * rewrite kept_app by exact LE. rewrite KE. cbn [kept app]. rewrite Hs, Hf.
+        rewrite !delivered_app. cbn [delivered flat_map val_of app]. rewrite !delivered_repeat_pending. rewrite !app_nil_r. reflexivity.
+  - (* pop *)
+    rewrite app_nil_r. revert Z'. unfold lq_pop; cbn [l_items l_waiters l_blocked l_limit l_futs l_pfuts l_alive].
+    destruct it as [|y t]; cbn [fst]; intros Z'.
+    + exists done, pdone, pva. split; cbn [l_items l_waiters l_blocked l_limit l_futs l_pfuts l_alive]; try assumption; try reflexivity.
+      * apply shape_park. exact Sh.
+      * rewrite KE. rewrite delivered_app. cbn. rewrite !app_nil_r. reflexivity.
+    + assert (ws = []) as -> by (destruct ws; [reflexivity|]; exfalso; assert (y :: t = []) by (apply ZW; discriminate); discriminate).
+      pose proof (shape_ready fs done (FValue y) Sh) as [Sh' ED].
+      destruct bl as [|[z bp] b]; cbn [fst] in *.
+      * exists (fs ++ [FValue y]), pdone, pva.
+        split; cbn [l_items l_waiters l_blocked l_limit l_futs l_pfuts l_alive]; try assumption; try reflexivity.
+        -- apply nopend_app; [rewrite ED; exact N|apply nopend_one; discriminate].
+        -- rewrite KE. rewrite delivered_app. cbn [delivered flat_map val_of app]. rewrite <- app_assoc. reflexivity.
+      * cbn [map snd fst] in *.
+        pose proof (shape_take pf bp (map snd b) pdone (FValue 0) PSh) as (Hp & Hf & Hs & Hsh).
+        exists (fs ++ [FValue y]), (pdone ++ [FValue 0]), (pva ++ [z]).
+        split; cbn [l_items l_waiters l_blocked l_limit l_futs l_pfuts l_alive]; try assumption; try reflexivity.
+        -- apply nopend_app; [rewrite ED; exact N|apply nopend_one; discriminate].
+        -- apply nopend_app; [exact PN|apply nopend_one; discriminate].
+        -- rewrite PV. rewrite <- app_assoc. reflexivity.
+        -- rewrite !app_length. cbn [length]. lia.
+        -- rewrite kept_app by exact LE. rewrite KE. cbn [kept app]. rewrite delivered_app.
+           cbn [delivered flat_map val_of app]. rewrite <- !app_assoc. reflexivity.
+  - (* unblock_pop *)
+    rewrite app_nil_r. revert Z'. unfold lq_unblock_pop; cbn [l_items l_waiters l_blocked l_limit l_futs l_pfuts l_alive].
+    destruct ws as [|p w]; cbn [fst]; intros Z'; [exists done, pdone, pva; exact G|].
+    assert (it = []) as -> by (apply ZW; discriminate).
+    pose proof (shape_take fs p w done (FExc e) Sh) as (Hp & Hf & Hs & Hsh).
+    exists (done ++ [FExc e]), pdone, pva.
+    split; cbn [l_items l_waiters l_blocked l_limit l_futs l_pfuts l_alive]; try assumption; try reflexivity.
+    + apply nopend_app; [exact N|apply nopend_one; discriminate].
+    + rewrite KE. rewrite Hs, Hf.
+      rewrite !delivered_app. cbn [delivered flat_map val_of app]. rewrite !delivered_repeat_pending. rewrite !app_nil_r. reflexivity.
+  - (* unblock_push *)
+    rewrite app_nil_r. revert Z'. unfold lq_unblock_push; cbn [l_items l_waiters l_blocked l_limit l_futs l_pfuts l_alive].
+    destruct bl as [|[z bp] b]; cbn [fst]; intros Z'; [exists done, pdone, pva; exact G|].
+    cbn [map snd fst] in *.
+    pose proof (shape_take pf bp (map snd b) pdone (FExc e) PSh) as (Hp & Hf & Hs & Hsh).
+    exists done, (pdone ++ [FExc e]), (pva ++ [z]).
+    split; cbn [l_items l_waiters l_blocked l_limit l_futs l_pfuts l_alive]; try assumption; try reflexivity.
+    + apply nopend_app; [exact PN|apply nopend_one; discriminate].
+    + rewrite PV. rewrite <- app_assoc. reflexivity.
+    + rewrite !app_length. cbn [length]. lia.
+    + rewrite kept_app by exact LE. rewrite KE. cbn [kept app]. rewrite !app_nil_r. reflexivity.
+Qed.
+
+Fixpoint lq_exec (q : lqueue) (l : list lop) : lqueue :=
+  match l with [] => q | x :: t => lq_exec (fst (lq_step_on q x)) t end.
+
+Lemma lq_exec_run q ops : snd (lq_run_from (Some q) ops) = Some (lq_exec q ops).
+Proof.
+  revert q; induction ops as [|x ops IH]; intros q; cbn [lq_run_from lq_exec lq_step]; [reflexivity|].
+  destruct (lq_step_on q x) as [q1 o]. cbn [fst]. specialize (IH q1). destruct (lq_run_from (Some q1) ops). exact IH.
+Qed.
+
+Lemma lgood_run ops : forall pv q done pdone pva, lgood pv q done pdone pva -> l_no_destroy ops ->
+  exists done' pdone' pva', lgood (pv ++ l_pushed_vals ops) (lq_exec q ops) done' pdone' pva'.
+Proof.
+  induction ops as [|x ops IH]; intros pv q done pdone pva G ND; cbn [lq_exec l_pushed_vals flat_map].
+  - exists done, pdone, pva. rewrite app_nil_r. exact G.
+  - inversion ND as [|x' l' Hx Hl]; subst.
+    destruct (lgood_step _ _ _ _ _ x G Hx) as (d1 & p1 & a1 & G1).
+    destruct (IH _ _ _ _ _ G1 Hl) as (d2 & p2 & a2 & G2).
+    exists d2, p2, a2. rewrite app_assoc. exact G2.
+Qed.
+
+Definition lq_reach (limit : Z) (ops : list lop) : lqueue := lq_exec (lq_new limit) ops.
+
+Lemma lgood_reach limit ops : 1 <= limit -> l_no_destroy ops ->
+  exists done pdone pva, lgood (l_pushed_vals ops) (lq_reach limit ops) done pdone pva.
+Proof. intros L ND. exact (lgood_run ops [] _ _ _ _ (lgood_new limit L) ND). Qed.
+
+(* conservation + order: the pushed items minus the withdrawn ones (push future failed by unblock_push), in push order,
+   are exactly: the values held by the pop futures in pop-arrival order, then the queued items, then the items
+   held by the blocked pushes.  List equality: nothing lost, nothing duplicated, nothing reordered. *)
+Theorem lq_conservation_order limit ops : 1 <= limit -> l_no_destroy ops ->
+  let q := lq_reach limit ops in
+  kept (l_pushed_vals ops) (l_pfuts q) = delivered (l_futs q) ++ l_items q ++ map fst (l_blocked q).
+Proof.
+  intros L ND q. destruct (lgood_reach limit ops L ND) as (done & pdone & pva & [A Z Sh N PSh PN PV LE KE]).
+  fold q in A, Z, Sh, PSh, PV, KE. rewrite PV. destruct PSh as [PF PW]. rewrite PF.
+  rewrite kept_app by exact LE. rewrite KE. rewrite map_length.
+  rewrite <- (map_length fst (l_blocked q)). rewrite kept_pending. rewrite app_assoc. reflexivity.
+Qed.
+
+(* the blocked pushes are exactly the pending push futures, oldest first, each holding the item of its own push;
+   nobody is blocked unless the queue is full; nobody waits unless it is empty *)
+Theorem lq_blocked_fifo limit ops : 1 <= limit -> l_no_destroy ops ->
+  let q := lq_reach limit ops in
+  exists pdone, l_pfuts q = pdone ++ repeat FPending (length (l_blocked q)) /\ nopend pdone /\
+    map snd (l_blocked q) = seq (length pdone) (length (l_blocked q)) /\
+    map fst (l_blocked q) = skipn (length pdone) (l_pushed_vals ops) /\
+    (l_blocked q <> [] -> zlen (l_items q) = limit) /\ zlen (l_items q) <= limit /\
+    (l_waiters q <> [] -> l_items q = [] /\ l_blocked q = []).
+Proof.
+  intros L ND q. destruct (lgood_reach limit ops L ND) as (done & pdone & pva & [A Z Sh N PSh PN PV LE KE]).
+  fold q in A, Z, Sh, PSh, PV, KE. destruct PSh as [PF PW]. rewrite map_length in PF, PW.
+  assert (l_limit q = limit) as EL.
+  { clear. unfold q, lq_reach. assert (forall q0, l_limit (lq_exec q0 ops) = l_limit q0) as K.
+    { induction ops as [|x ops IH]; intros q0; cbn [lq_exec]; [reflexivity|]. rewrite IH.
+      unfold lq_step_on. destruct (l_alive q0); cbn [negb fst]; [|reflexivity].
+      destruct x; cbn [fst]; try reflexivity.
+      - unfold lq_push. destruct (l_waiters q0); [destruct (zlen (l_items q0) >=? l_limit q0)|]; reflexivity.
+      - unfold lq_pop. destruct (l_items q0); [|destruct (l_blocked q0) as [|[? ?] ?]]; reflexivity.
+      - unfold lq_unblock_pop. destruct (l_waiters q0); reflexivity.
+      - unfold lq_unblock_push. destruct (l_blocked q0) as [|[? ?] ?]; reflexivity. }
+    apply K. }
+  destruct Z as [ZL ZS ZF ZW]. rewrite EL in *.
+  exists pdone. repeat split; try assumption.
+  - rewrite PV. rewrite <- LE. rewrite skipn_app, Nat.sub_diag, skipn_all. reflexivity.
+  - apply ZW; assumption.
+  - destruct (l_blocked q) eqn:B; [reflexivity|]. exfalso.
+    assert (l_items q = []) as E by (apply ZW; assumption). assert (zlen (l_items q) = limit) as E2 by (apply ZF; discriminate).
+    rewrite E, zlen_nil in E2. lia.
+Qed.
+
+(* a push completes immediately exactly while fewer than `limit` items are waiting; otherwise its future is pending *)
+Theorem lq_push_immediate_iff pv q done pdone pva v : lgood pv q done pdone pva ->
+  let q' := fst (lq_push q v) in let f := snd (lq_push q v) in
+  f = length (l_pfuts q) /\ l_pfuts q' = l_pfuts q ++ [if zlen (l_items q) <? l_limit q then FValue 0 else FPending] /\
+  (zlen (l_items q) <? l_limit q = false -> l_blocked q' = l_blocked q ++ [(v, f)] /\ l_items q' = l_items q /\ l_futs q' = l_futs q).
+Proof.
+  intros [A [ZL ZS ZF ZW] Sh N PSh PN PV LE KE]. unfold lq_push.
+  destruct (l_waiters q) as [|p w] eqn:W; cbn [fst snd l_pfuts l_blocked l_items l_futs].
+  - destruct (zlen (l_items q) >=? l_limit q) eqn:E; cbn [fst snd l_pfuts l_blocked l_items l_futs].
+    + assert (zlen (l_items q) <? l_limit q = false) as -> by lia. repeat split.
+    + assert (zlen (l_items q) <? l_limit q = true) as -> by lia. repeat split; discriminate.
+  - assert (l_items q = []) as E by (apply ZW; discriminate).
+    replace (zlen (l_items q)) with 0 by (rewrite E; reflexivity).
+    assert (0 <? l_limit q = true) as -> by lia. repeat split; discriminate.
+Qed.
+
+(* push futures change only at the OLDEST pending push, only by pop (completed) or unblock_push (failed with e),
+   or all at once by destruction (canceled) *)
+Theorem lq_push_completes_only_by pv q done pdone pva x j : lgood pv q done pdone pva ->
+  fget (l_pfuts (fst (lq_step_on q x))) j <> fget (l_pfuts q) j -> (j < length (l_pfuts q))%nat ->
+  (x = LPop /\ l_items q <> [] /\ oldest_pending (l_pfuts q) j /\ fget (l_pfuts (fst (lq_step_on q x))) j = FValue 0) \/
+  (exists e, x = LUnblockPush e /\ oldest_pending (l_pfuts q) j /\ fget (l_pfuts (fst (lq_step_on q x))) j = FExc e) \/
+  (x = LDestroy /\ fget (l_pfuts q) j = FPending /\ fget (l_pfuts (fst (lq_step_on q x))) j = FCanceled).
+Proof.
+  intros [A [ZL ZS ZF ZW] Sh N PSh PN PV LE KE]. unfold lq_step_on. rewrite A. cbn [negb].
+  destruct PSh as [PF PW]. rewrite map_length in PF, PW.
+  destruct q as [it ws bl lim fs pf al]; cbn [l_items l_waiters l_blocked l_limit l_futs l_pfuts l_alive] in *.
+  destruct x as [l|v| |e| | |e| ]; cbn [fst l_pfuts]; try (intros H; exfalso; apply H; reflexivity).
+  - (* push: only appends *)
+    unfold lq_push; cbn [l_items l_waiters l_blocked l_limit l_futs l_pfuts l_alive].
+    destruct ws as [|p w]; [destruct (zlen it >=? lim)|]; cbn [fst l_pfuts]; intros H LT; exfalso; apply H; apply fget_app_left; exact LT.
+  - (* pop *)
+    unfold lq_pop; cbn [l_items l_waiters l_blocked l_limit l_futs l_pfuts l_alive].
+    destruct it as [|y t]; cbn [fst l_pfuts]; [intros H; exfalso; apply H; reflexivity|].
+    destruct bl as [|[z bp] b]; cbn [fst l_pfuts]; [intros H; exfalso; apply H; reflexivity|].
+    cbn [map snd length seq] in PW. injection PW as Wp Ww. intros H LT. left.
+    destruct (Nat.eq_dec bp j) as [E|E]; [|exfalso; apply H; apply fget_set_other; exact E].
+    subst j. repeat split; try discriminate.
+    + rewrite Wp, PF. apply oldest_is_first; [exact PN|cbn [length]; lia].
+    + rewrite Wp, PF. intros j L. rewrite fget_app_left by exact L. apply nopend_fget; assumption.
+    + apply fget_set_same. exact LT.
+  - (* unblock_pop *)
+    unfold lq_unblock_pop; cbn [l_items l_waiters l_blocked l_limit l_futs l_pfuts l_alive].
+    destruct ws as [|p w]; cbn [fst l_pfuts]; intros H; exfalso; apply H; reflexivity.
+  - (* destroy *)
+    intros H LT. right; right. split; [reflexivity|]. unfold lq_destroy in *. cbn [l_pfuts l_blocked l_futs l_waiters] in *.
+    rewrite PF in H at 1. rewrite PW in H. rewrite cancel_all_seq in H. rewrite PF in LT. rewrite app_length, repeat_length in LT.
+    destruct (Nat.lt_ge_cases j (length pdone)) as [L|L].
+    + exfalso. apply H. rewrite PF. rewrite !fget_app_left by exact L. reflexivity.
+    + rewrite PF at 1. rewrite PF at 1. rewrite PW. rewrite cancel_all_seq. rewrite !fget_app_right by exact L.
+      rewrite !fget_repeat by lia. split; reflexivity.
+  - (* unblock_push *)
+    unfold lq_unblock_push; cbn [l_items l_waiters l_blocked l_limit l_futs l_pfuts l_alive].
+    destruct bl as [|[z bp] b]; cbn [fst l_pfuts]; [intros H; exfalso; apply H; reflexivity|].
+    cbn [map snd length seq] in PW. injection PW as Wp Ww. intros H LT. right; left. exists e.
+    destruct (Nat.eq_dec bp j) as [E|E]; [|exfalso; apply H; apply fget_set_other; exact E].
+    subst j. repeat split.
+    + rewrite Wp, PF. apply oldest_is_first; [exact PN|cbn [length]; lia].
+    + rewrite Wp, PF. intros j L. rewrite fget_app_left by exact L. apply nopend_fget; assumption.
+    + apply fget_set_same. exact LT.
+Qed.
+
+(* one per pop: a pop changes at most one push future *)
+Theorem lq_one_per_pop pv q done pdone pva j k : lgood pv q done pdone pva ->
+  (j < length (l_pfuts q))%nat -> (k < length (l_pfuts q))%nat ->
+  fget (l_pfuts (fst (lq_step_on q LPop))) j <> fget (l_pfuts q) j ->
+  fget (l_pfuts (fst (lq_step_on q LPop))) k <> fget (l_pfuts q) k -> j = k.
+Proof.
+  intros G Lj Lk Hj Hk.
+  destruct (lq_push_completes_only_by _ _ _ _ _ LPop j G Hj Lj) as [(_ & _ & Oj & _)|[(e & X & _)|(X & _)]]; try discriminate.
+  destruct (lq_push_completes_only_by _ _ _ _ _ LPop k G Hk Lk) as [(_ & _ & Ok & _)|[(e & X & _)|(X & _)]]; try discriminate.
+  exact (oldest_unique _ _ _ Oj Ok).
+Qed.
+
+(* unblock_push is exact: it fails the oldest blocked push with e, withdraws that push's own item, nothing else moves *)
+Theorem lq_unblock_push_exact pv q done pdone pva e : lgood pv q done pdone pva ->
+  let q' := fst (lq_step_on q (LUnblockPush e)) in
+  match l_blocked q with
+  | [] => q' = q
+  | (y, j) :: b =>
+      oldest_pending (l_pfuts q) j /\ y = nth j pv 0 /\
+      l_pfuts q' = set_nth (l_pfuts q) j (FExc e) /\ l_blocked q' = b /\
+      l_items q' = l_items q /\ l_futs q' = l_futs q /\ l_waiters q' = l_waiters q /\ l_limit q' = l_limit q /\ l_alive q' = true
+  end.
+Proof.
+  intros [A [ZL ZS ZF ZW] Sh N PSh PN PV LE KE]. unfold lq_step_on. rewrite A. cbn [negb fst]. unfold lq_unblock_push.
+  destruct PSh as [PF PW]. rewrite map_length in PF, PW.
+  destruct (l_blocked q) as [|[y j] b] eqn:B; cbn [fst].
+  - reflexivity.
+  - cbn [map snd fst length seq] in *. injection PW as Wp Ww.
+    cbn [l_pfuts l_blocked l_items l_futs l_waiters l_limit l_alive]. repeat split; try assumption.
+    + rewrite Wp, PF. apply oldest_is_first; [exact PN|lia].
+    + rewrite Wp, PF. intros k L. rewrite fget_app_left by exact L. apply nopend_fget; assumption.
+    + rewrite PV, Wp, <- LE. rewrite app_nth2 by lia. rewrite Nat.sub_diag. reflexivity.
+Qed.
+
+(* the pop side of limited_queue behaves as in queue<T>: a waiting pop is completed only by a push (the oldest one,
+   with the pushed value), by the base class' unblock_pop (the oldest, with e) or by destruction *)
+Theorem lq_pop_completes_only_by pv q done pdone pva x i : lgood pv q done pdone pva ->
+  fget (l_futs q) i = FPending -> fget (l_futs (fst (lq_step_on q x))) i <> FPending ->
+  (exists v, x = LPush v /\ oldest_pending (l_futs q) i /\ fget (l_futs (fst (lq_step_on q x))) i = FValue v) \/
+  (exists e, x = LUnblockPop e /\ oldest_pending (l_futs q) i /\ fget (l_futs (fst (lq_step_on q x))) i = FExc e) \/
+  (x = LDestroy /\ fget (l_futs (fst (lq_step_on q x))) i = FCanceled).
+Proof.
+  intros [A [ZL ZS ZF ZW] [F W] N PSh PN PV LE KE] P. unfold lq_step_on. rewrite A. cbn [negb].
+  pose proof P as R. rewrite F in R. apply pending_range in R; [|exact N].
+  destruct q as [it ws bl lim fs pf al]; cbn [l_items l_waiters l_blocked l_limit l_futs l_pfuts l_alive] in *.
+  destruct x as [l|v| |e| | |e| ]; cbn [fst l_futs]; try (intros H; exfalso; exact (H P)).
+  - unfold lq_push; cbn [l_items l_waiters l_blocked l_limit l_futs l_pfuts l_alive].
+    destruct ws as [|p w]; [destruct (zlen it >=? lim)|]; cbn [fst l_futs]; try (intros H; exfalso; exact (H P)).
+    cbn [length seq] in W. injection W as Wp Ww. intros H. left. exists v. split; [reflexivity|].
+    destruct (Nat.eq_dec p i) as [E|E]; [|exfalso; apply H; rewrite fget_set_other by exact E; exact P].
+    subst i. split; [|apply fget_set_same; rewrite F, app_length, repeat_length; cbn [length]; lia].
+    rewrite Wp, F. apply oldest_is_first; [exact N|cbn [length]; lia].
+  - unfold lq_pop; cbn [l_items l_waiters l_blocked l_limit l_futs l_pfuts l_alive].
+    destruct it as [|y t]; [|destruct bl as [|[z bp] b]]; cbn [fst l_futs];
+      intros H; exfalso; apply H; rewrite fget_app_left; try exact P; rewrite F, app_length, repeat_length; lia.
+  - unfold lq_unblock_pop; cbn [l_items l_waiters l_blocked l_limit l_futs l_pfuts l_alive].
+    destruct ws as [|p w]; cbn [fst l_futs]; [intros H; exfalso; exact (H P)|].
+    cbn [length seq] in W. injection W as Wp Ww. intros H. right; left. exists e. split; [reflexivity|].
+    destruct (Nat.eq_dec p i) as [E|E]; [|exfalso; apply H; rewrite fget_set_other by exact E; exact P].
+    subst i. split; [|apply fget_set_same; rewrite F, app_length, repeat_length; cbn [length]; lia].
+    rewrite Wp, F. apply oldest_is_first; [exact N|cbn [length]; lia].
+  - intros _. right; right. split; [reflexivity|]. unfold lq_destroy. cbn [l_futs l_waiters].
+    rewrite F. rewrite W at 2. rewrite cancel_all_seq. rewrite fget_app_right by lia. apply fget_repeat. lia.
+  - unfold lq_unblock_push; cbn [l_items l_waiters l_blocked l_limit l_futs l_pfuts l_alive].
+    destruct bl as [|[z bp] b]; cbn [fst l_futs]; intros H; exfalso; exact (H P).
+Qed.
+
+Theorem lq_dead_rejects q x : l_alive q = false -> lq_step_on q x = (q, rejected).
+Proof. intros H. unfold lq_step_on. rewrite H. reflexivity. Qed.
